@@ -87,6 +87,9 @@ type ExecD struct {
 	// CtxKind 1: the directive gets a user-defined context.Context type
 	// (engine.UserCtx) instead of a standard cancel context.
 	CtxKind int `json:"ctx_kind,omitempty"`
+	// ShareErr: the first emitter passes the directive's error to another goroutine, which formats
+	// it concurrently with the caller.
+	ShareErr bool `json:"share_err,omitempty"`
 	// AtErr k > 0 (CtxKind 1, CancelExternal): the outside party ends the context while the
 	// directive's caller is parked inside its k-th call of ctx.Err(), instead of after DelaySteps.
 	AtErr int `json:"at_err,omitempty"`
@@ -968,7 +971,25 @@ func (e *recEmitter) FlowSuccess(ctx context.Context) {
 }
 func (e *recEmitter) FlowError(ctx context.Context, err error) {
 	e.rec(EmFlowError, "", err, nil)
+	e.shareErr(ctx, err)
 	e.slowAfterWait(ctx)
+}
+
+// shareErr: the emitter hands the directive's error to a logger goroutine, which formats it
+// while the caller does the same with the error it got back: two readers of one error value,
+// nothing ordering them. Race-free as long as formatting an error only reads.
+func (e *recEmitter) shareErr(ctx context.Context, err error) {
+	if !e.x.d.ShareErr || e.k != 0 || err == nil {
+		return
+	}
+	sim := e.x.r.sim
+	e.x.notePostWait(e.x.ctxErrQuiet(ctx))
+	go func() {
+		sim.Yield(engine.HsStart)
+		_ = err.Error()
+		sim.Exit()
+	}()
+	sim.Yield(engine.HsMisc)
 }
 func (e *recEmitter) FlowDone(context.Context, time.Duration) { e.rec(EmFlowDone, "", nil, nil) }
 
@@ -980,6 +1001,7 @@ func (e *recPar) ParallelSuccess(ctx context.Context) {
 }
 func (e *recPar) ParallelError(ctx context.Context, err error) {
 	(*recEmitter)(e).rec(EmFlowError, "", err, nil)
+	(*recEmitter)(e).shareErr(ctx, err)
 	(*recEmitter)(e).slowAfterWait(ctx)
 }
 func (e *recPar) ParallelDone(context.Context, time.Duration) {
@@ -1116,6 +1138,9 @@ func (r *runner) runExec(x *execRun, parent context.Context) {
 		}()
 		res, err = x.fn(uctx, h, d.Params)
 	}()
+	if d.ShareErr && err != nil {
+		_ = err.Error() // the caller formats what it got (see shareErr)
+	}
 	ctxErr := x.ctxErrQuiet(ctx)
 	if set, e := x.postWait(); set {
 		ctxErr = e
